@@ -4,7 +4,7 @@ from evalutil import *
 
 ID = "C13"
 LEVEL = "proof"
-MODULES = ["H3Proofs.Props.C13", "H3Proofs.Props.C13Bij", "H3Proofs.Props.C04Valid", "H3Proofs.Props.C13Refine"]
+MODULES = ["H3Proofs.Props.C13", "H3Proofs.Props.C13Bij", "H3Proofs.Props.C04Valid", "H3Proofs.Props.C13Refine", "H3Proofs.Props.C04Gen"]
 THEOREMS = "auto"
 ASSUMPTIONS = ["hand-written loop-faithful model of cellToChildPos/childPosToCell/validateChildPos/_ipow tied to the code "
                "by the correspondence check; the specification-level model the bijection theorems are about is PROVED equal "
